@@ -100,6 +100,8 @@ PROFILE = {
 
 
 def gen_family(rng, hashseeds, tier):
+    if tier == 'thorough' and rng.random() < 0.03:
+        return gen_large_family(rng, hashseeds)
     if rng.random() < 0.12:
         # transformer families: ob-csv source with >= 2 float-typed columns
         base = pipe_common.gen_spec(rng, dict(PROFILE, ncols=[3, 4], colopts={'kind': ['numeric', 'numeric', 'numeric', 'lowcard']}, heuristics=['MI-numba-randomized']))
@@ -150,6 +152,26 @@ def gen_family(rng, hashseeds, tier):
     rep_of = rng.randrange(len(members) - 1)
     members.append(copy.deepcopy(members[rep_of]))
     return {'base': base, 'flags': flags, 'members': members, 'repeat_of': rep_of}
+
+
+def gen_large_family(rng, hashseeds):
+    """Thorough tier only: one mini-batch of ~9000 rows with an identifier-like column, pairwise mode - sizes at which
+    value-count thresholds inside the kernels (thousands of distinct values) are crossed."""
+    prof = dict(PROFILE, minibatch=[9000], batches=[1], delta=[0], ncols=[3], malformed=[0.0], subsampling=[1], target_only=['False'],
+                heuristics=['MI-numba-randomized'], colopts={'kind': ['id', 'lowcard', 'midcard']}, more_runs=0.0)
+    base = pipe_common.gen_spec(rng, prof)
+    base.pop('poison', None)
+    members = []
+    for i, p in enumerate([1, 2, 4, 16]):
+        m = copy.deepcopy(base)
+        m['cli']['num_threads'] = p
+        m['service_mode'] = rng.choice(MODES)
+        m['seed'] = rng.randrange(2 ** 40)
+        m['hashseed'] = hashseeds[i % len(hashseeds)]
+        m['fs'] = {'write_through': True, 'short_reads': False}
+        members.append(m)
+    members.append(copy.deepcopy(members[0]))
+    return {'base': base, 'flags': ['large-batch'], 'members': members, 'repeat_of': 0}
 
 
 def compare_family(fam, values):
